@@ -269,6 +269,9 @@ def run(ctx):
     # ------------------------------------------------------------ the proposal a resumed run evaluates is the one the stored log_q came from
     from ..report import reuse
     from . import c14
+    from .c16 import dict_order as _dict_order
+    reuse(ctx, lambda c: _dict_order(c, repo, "C13.dictorder"), ("C13.dictorder",), "C10load",
+          "column-order rule shared with C13: a population reloaded from HDF5 (which sorts keys) must get its columns back by parameter name, or row i no longer is the point its cached densities were evaluated at")
     reuse(ctx, c14.run, ("C14.flow",), "C10file", "stale-flow rule shared with C14: after a resume log_q is recomputed with the flow stored in the file")
 
     # ------------------------------------------------------------ who may write x
